@@ -6,11 +6,12 @@ from harness.props import sslink_util as U
 
 PROP = "C39"
 LEAN_MODULES = ["LunaVerif.Props.C39", "LunaVerif.Lemmas.C39Round", "LunaVerif.Lemmas.C39RoundRun",
-                "LunaVerif.Props.C39Retry"]
+                "LunaVerif.Props.C39Retry", "LunaVerif.Lemmas.C39Wire", "LunaVerif.Lemmas.C39Live"]
 DRIVER = "Driver/C39.lean"
 REQUIRED_THEOREMS = ["send_only_with_credit", "sequence_numbers_consecutive_from_advertised",
                      "retire_only_on_matching_lgood", "lbad_retry_one_step_facts",
-                     "lbad_retransmits_all_unacked_in_order_with_dl", "lbad_retransmission_kth", "lbad_round"]
+                     "lbad_retransmits_all_unacked_in_order_with_dl", "lbad_retransmission_kth", "lbad_round",
+                     "wire_latches", "lbad_retransmits_on_the_wire", "lbad_round_completes"]
 RULE = ("cases = closed-loop link partner (sequence advertisement, LCRD A-D, LGOOD per received header after a random "
         "delay, LBAD for a randomly 'corrupted' header followed by ignoring until our LRTY) + protocol layer queue "
         "timing + source back-pressure + lrty_pending timing + link down/up; 'chaos' partner: wrong credit letters, "
@@ -25,14 +26,15 @@ ASSUMPTIONS = [
     "retransmission theorem only (EnvStepR.ackSent): the partner acknowledges a header only after its (re)transmission has "
     "been started - since the last LBAD, if there was one (an LGOOD for a header not yet put on the wire again after an "
     "LBAD cannot come from a conforming partner: acknowledgements are in order and precede the LBAD)",
+    "retransmission theorems speak about the headers handed to the raw transmitter after the LBAD cycle (latches) and about "
+    "the headers whose DW3 is accepted on the wire (wireHdrs, wire_latches; the words of each are given state by state by "
+    "tx_word_carries_header); the packet that was already in flight at the LBAD is set aside, as in the monitor",
+    "completion (lbad_round_completes): no further LBAD and at least 20*m+20 cycles with source.ready and without "
+    "lrty_pending, spread arbitrarily over the history",
+    "link re-entry of the transmitter is outside the property (dispatch FSM / raw transmitter are not reset by ~enable; "
+    "the monitor stops at link-down)",
 ]
-PARTIAL = ("lbad_retransmits_all_unacked_in_order_with_dl is a safety statement about the headers handed to the raw "
-           "transmitter (packet_tx.header when it leaves IDLE) after the LBAD cycle: the first m of them are the m "
-           "unacknowledged headers, in order, with DL, whatever the waiting times; that the round is completed under a "
-           "fair source.ready / lrty_pending (liveness) is not proved, and the words of a latched header on the wire are "
-           "covered state by state (tx_word_carries_header), not as a parsed word sequence.  DATA payload streaming "
-           "(data_sink active) is out of scope (C36); link re-entry of the transmitter is outside the property (monitor "
-           "stops at link-down)")
+PARTIAL = ""
 
 IN_NAMES = ["sink_valid", "sink_data", "sink_ctrl", "source_ready", "enable", "queue_valid", "q_dw0", "q_dw1", "q_dw2",
             "q_dw3", "lrty_pending"]
